@@ -5,7 +5,9 @@ From Verif Require Import Common.Base Common.Tactics JsScope.Model JsScope.Abs J
 
 Lemma label_eqb_eq a b : label_eqb a b = true <-> a = b.
 Proof.
-  destruct a as [s x|s x], b as [t y|t y]; cbn; split; intros H; try discriminate.
+  destruct a as [s x|s x|s x], b as [t y|t y|t y]; cbn; split; intros H; try discriminate.
+  - apply andb_true_iff in H. destruct H as [H1 H2]. apply Nat.eqb_eq in H1. apply Z.eqb_eq in H2. subst. reflexivity.
+  - inversion H; subst. rewrite Nat.eqb_refl, Z.eqb_refl. reflexivity.
   - apply andb_true_iff in H. destruct H as [H1 H2]. apply Nat.eqb_eq in H1. apply Z.eqb_eq in H2. subst. reflexivity.
   - inversion H; subst. rewrite Nat.eqb_refl, Z.eqb_refl. reflexivity.
   - apply andb_true_iff in H. destruct H as [H1 H2]. apply Nat.eqb_eq in H1. apply Z.eqb_eq in H2. subst. reflexivity.
@@ -120,6 +122,21 @@ Section Adopt.
   Lemma ad_k_lt : (k < length (sundeclared sc))%nat.
   Proof. apply nth_error_Some. unfold sc. rewrite Hk. discriminate. Qed.
 
+  Lemma ad_args q : und_args (sc_of st2 q) = und_args (sc_of st q).
+  Proof.
+    rewrite ad_sc. destruct (Nat.eqb_spec q t) as [->|]; [|reflexivity].
+    unfold und_args, sc1. cbn [narguses sundeclared set_declared set_undeclared]. fold sc. apply firstn_remove_at_le. exact Hnarg.
+  Qed.
+
+  Lemma ad_argp w : argp st2 home w = argp st home w.
+  Proof. apply argp_ext; [reflexivity|apply ad_args]. Qed.
+
+  Lemma ad_argp_r : argp st home r = false.
+  Proof.
+    apply (notin_und_args_argp st home t r ad_rhome). unfold und_args.
+    apply (nth_error_firstn_in _ _ k r Hk Hnarg). apply (I_und_nodup _ _ _ _ _ I t Ht).
+  Qed.
+
   Lemma InvS_adopt : InvS st2 log stk home no_extra.
   Proof.
     pose proof ad_t as Htn. pose proof I as I'. dI I'.
@@ -166,7 +183,7 @@ Section Adopt.
         - split; [eapply remove_at_in; exact H|]. intros ->. apply ad_r_not_rest. exact H.
         - split; [exact H|]. intros ->. apply (ad_r_not_und q Hq Hne H). }
       destruct (Hin v1 H1) as [I1 N1]. destruct (Hin v2 H2) as [I2 N2].
-      rewrite !ad_vd_other, !ad_vn by assumption. apply (Ipuniq q); assumption.
+      rewrite !ad_vd_other, !ad_vn, !ad_argp by assumption. apply (Ipuniq q); assumption.
     - intros r' Hr'. rewrite ad_nvars in Hr'. rewrite ad_root. intros R D.
       assert (Hne : r' <> r). { intros ->. rewrite ad_vd_r in D. contradiction. }
       rewrite ad_vd_other in D by exact Hne. destruct (Ipcomp r' Hr' R D) as [[H1 H2]|[]]. left. split; [exact H1|].
@@ -192,7 +209,7 @@ Section Adopt.
   Qed.
 
   Lemma ad_lab_r : lab_root st home r = LPend t x.
-  Proof. unfold lab_root. unfold vd in Hdr. rewrite Hdr. cbn. unfold vn in Hnr. rewrite Hnr, ad_rhome. reflexivity. Qed.
+  Proof. unfold lab_root. unfold vd in Hdr. rewrite Hdr, ad_argp_r. cbn. unfold vn in Hnr. rewrite Hnr, ad_rhome. reflexivity. Qed.
 
   Lemma ad_lab_r2 : lab_root st2 home r = LDecl t x.
   Proof.
@@ -203,7 +220,7 @@ Section Adopt.
 
   Lemma ad_lab_other w : w <> r -> lab_root st2 home w = lab_root st home w.
   Proof.
-    intros H. unfold lab_root. pose proof (ad_vd_other w H) as E. unfold vd in E. rewrite E.
+    intros H. unfold lab_root. pose proof (ad_vd_other w H) as E. unfold vd in E. rewrite E, ad_argp.
     pose proof (ad_vn w) as En. unfold vn in En. rewrite En. reflexivity.
   Qed.
 
@@ -220,12 +237,14 @@ Section Adopt.
     - rewrite ad_lab_other by exact E. rewrite label_eqb_neq; [reflexivity|].
       intros Hlab. apply E. unfold lab_root in Hlab.
       destruct (Z.eqb_spec (vdecl (vget st (root_of st w))) 0) as [D|D]; [|discriminate].
+      destruct (argp st home (root_of st w)) eqn:Ea; [discriminate|].
       inversion Hlab as [[Hh Hn]].
       apply (pend_label_inj st log stk home no_extra (root_of st w) r I Hrv ad_rv Hrr ad_rroot).
       + exact D.
       + exact Hdr.
       + rewrite ad_rhome. exact Hh.
       + unfold vn in *. rewrite Hnr. exact Hn.
+      + rewrite Ea, ad_argp_r. reflexivity.
       + intros [].
       + intros [].
   Qed.
@@ -237,7 +256,7 @@ Section Adopt.
     - apply map_ext_in. intros v Hv. assert (v <> r) by (intros ->; apply (ad_r_not_decl s Hsn Hv)).
       unfold nk. pose proof (ad_vn v) as En. pose proof (ad_vd_other v H) as Ed. unfold vn, vd in *. rewrite En, Ed. reflexivity.
     - apply map_ext_in. intros v Hv. assert (v <> r) by (intros ->; apply (ad_r_not_und s Hs Hne Hv)).
-      unfold uent_of. pose proof (ad_vn v) as En. pose proof (ad_vd_other v H) as Ed. unfold vn, vd in *. rewrite En, Ed. reflexivity.
+      unfold uent_of. pose proof (ad_vn v) as En. pose proof (ad_vd_other v H) as Ed. unfold vn, vd in *. rewrite En, Ed, ad_argp. reflexivity.
   Qed.
 
   Lemma ad_frame_t :
@@ -245,15 +264,15 @@ Section Adopt.
     = set_fdecl (set_fund (frame_of st home t) (remove_at (fund (frame_of st home t)) k))
                 (fdecl (frame_of st home t) ++ [(x, decl)]).
   Proof.
-    pose proof ad_t as Htn. unfold frame_of, set_fdecl, set_fund. cbn [fid fisfunc fdecl fund fnarg].
-    rewrite ad_sc, Nat.eqb_refl. unfold sc1. cbn [sfunc sdeclared sundeclared narguses set_declared set_undeclared]. fold sc. f_equal.
+    pose proof ad_t as Htn. unfold frame_of, set_fdecl, set_fund. cbn [fid fisfunc fdecl fund fnarg fnfor].
+    rewrite ad_sc, Nat.eqb_refl. unfold sc1. cbn [sfunc sdeclared sundeclared narguses nfordecls set_declared set_undeclared]. fold sc. f_equal.
     - rewrite map_app. f_equal.
       + apply map_ext_in. intros v Hv. assert (v <> r) by (intros ->; apply (ad_r_not_decl t Htn Hv)).
         unfold nk. pose proof (ad_vn v) as En. pose proof (ad_vd_other v H) as Ed. unfold vn, vd in *. rewrite En, Ed. reflexivity.
       + cbn. unfold nk. pose proof (ad_vn r) as En. pose proof ad_vd_r as Ed. unfold vn, vd in *. rewrite En, Ed, Hnr. reflexivity.
     - rewrite <- map_remove_at. apply map_ext_in. intros v Hv.
       assert (v <> r) by (intros ->; apply ad_r_not_rest; exact Hv).
-      unfold uent_of. pose proof (ad_vn v) as En. pose proof (ad_vd_other v H) as Ed. unfold vn, vd in *. rewrite En, Ed. reflexivity.
+      unfold uent_of. pose proof (ad_vn v) as En. pose proof (ad_vd_other v H) as Ed. unfold vn, vd in *. rewrite En, Ed, ad_argp. reflexivity.
   Qed.
 
   Lemma adopt_all :
